@@ -69,6 +69,9 @@ class Check(CheckBase):
                 # half of the failing operations are followed AT ONCE by another operation on the same object, while
                 # transfers of the failed one may still be under way (slow transfers): the in-flight bound covers both
                 'continue': kinds[i % len(kinds)] != 'roundtrip' and (i // (2 * len(kinds))) % 2 == 0,
+                # a third of the failing restores fail because ONE chunk download delivers damaged bytes (while the other
+                # downloads are slow): whatever the command does about it, the transfer bound holds
+                'garble': kinds[i % len(kinds)] == 'fail-restore' and (i // len(kinds)) % 3 == 0,
             })
         # sync-stress: tiny trees, long delays at synchronisation calls and a slow producer (slow disk), so that
         # a polling consumer is preempted between two of its checks for a time comparable to its poll period
@@ -432,7 +435,21 @@ class Check(CheckBase):
             q = _slot_queue(repo)
             if q is not None:
                 repo._vf_initial_slots = sorted(q._queue)
-            if fail:
+            if fail and case.get('garble'):
+                left = {'n': 1, 'skip': fault_rng.randrange(0, 4)}
+
+                def garble_once(name, data):
+                    if name.startswith('data/') and data and left['n']:
+                        if left['skip']:
+                            left['skip'] -= 1
+                            return data
+                        left['n'] -= 1
+                        counters['garbled_downloads'] = counters.get('garbled_downloads', 0) + 1
+                        return data[:-1] + bytes([data[-1] ^ 0x40])
+                    return data
+                store.garble = garble_once
+                saved_latency, store.latency = store.latency, (lambda op, name, idx: 0.15 if op == 'download_stream' else 0)
+            elif fail:
                 store.faults = [{'op': fault_rng.choice(['download_stream', 'download_stream', 'download']),
                                  'nth': fault_rng.randrange(0, 10), 'count': None, 'prefix': None}]
                 if case.get('continue'):
@@ -447,6 +464,8 @@ class Check(CheckBase):
                 outcome['restore'] = ('raised', e)
             finally:
                 store.faults = []
+                if case.get('garble') and fail:
+                    store.garble, store.latency = None, saved_latency
             if fail and case.get('continue'):
                 try:
                     with rep.capture():
@@ -538,7 +557,13 @@ class Check(CheckBase):
                     return {'verdict': 'inconclusive', 'note': f'harness error {err!r}', 'classes': [], 'counters': counters}
                 else:
                     kind, val = outcome['restore']
-                    if fail_res:
+                    if fail_res and case.get('garble'):
+                        # damaged bytes: an error, or a restore that got the right bytes after all - never wrong content
+                        if kind == 'returned':
+                            got = {'/' + k: v for k, v in gen.walk_tree(target).items()}
+                            if any(p not in got or got[p][0] != truth[p] for p in truth):
+                                viol('restore returned normally with wrong content after a chunk download delivered damaged bytes')
+                    elif fail_res:
                         if kind == 'returned' and store.fault_hits:
                             viol('restore returned normally although a backend call failed for good')
                         elif kind == 'raised' and not isinstance(val, membackend.InjectedFault):
